@@ -48,6 +48,17 @@ def doc_default(cls_node, fn, param):
 def registry_iteration(e):
     """(iterates the (object, override) pairs of the registry in its order, iterates a snapshot) for the iterable of a loop"""
     snap = False
+    # zip(tuple(d.keys()), tuple(d.values())) / zip(tuple(d), tuple(d.values())): two snapshots taken back to back pair each object with its override
+    if isinstance(e, ast.Call) and isinstance(e.func, ast.Name) and e.func.id == 'zip' and len(e.args) == 2 and not e.keywords:
+        def snap_of(x, what):
+            if isinstance(x, ast.Call) and isinstance(x.func, ast.Name) and x.func.id in ('list', 'tuple') and len(x.args) == 1 and not x.keywords:
+                y = x.args[0]
+                if what == 'keys' and ast.unparse(y) in ('self._registered_objects', 'self._registered_objects.keys()'):
+                    return True
+                if what == 'values' and ast.unparse(y) == 'self._registered_objects.values()':
+                    return True
+            return False
+        return snap_of(e.args[0], 'keys') and snap_of(e.args[1], 'values'), True
     while True:
         if isinstance(e, ast.Call) and isinstance(e.func, ast.Name) and e.func.id in ('list', 'tuple') and len(e.args) == 1 and not e.keywords:
             e, snap = e.args[0], True
